@@ -93,6 +93,21 @@ def run(op, n):
                       sign_script=os.path.join(repo, "ncs", "sign_script.py"), kms_script=os.path.join(repo, "ncs", "basic_kms.py"),
                       already_signed_action=SignatureAlreadyPresentActions("error"))
         return [b64(out + "_s.suit")]
+    if op in ("objskip", "objsign", "objsignB"):
+        # ONE signer object kept by the caller across operations (what sign recursive's per-node objects and any library user
+        # do): a 'skip' decision for an already signed envelope is a decision about THAT envelope
+        from pathlib import Path
+        from suit_generator import cmd_sign
+        from suit_generator.suit_sign_script_base import SignatureAlreadyPresentActions, SuitSignAlgorithms
+        if "signer" not in REUSED:
+            REUSED["signer"] = cmd_sign._import_signer(os.path.join(repo, "ncs", "sign_script.py"))
+        src = {"objskip": "env_signed.suit", "objsign": "env.suit", "objsignB": "env2.suit"}[op]
+        e = cmd_sign.load_envelope(Path(W) / src)
+        e = REUSED["signer"].sign_envelope(e, "ked", 0x4000AA00 if op != "objsignB" else 0x4000AA01, SuitSignAlgorithms("eddsa"),
+                                            os.path.join(W, "keys"), os.path.join(repo, "ncs", "basic_kms.py"),
+                                            SignatureAlreadyPresentActions("skip" if op == "objskip" else "error"))
+        cmd_sign.save_envelope(Path(out + "_o.suit"), e)
+        return [b64(out + "_o.suit")]
     if op == "encrypt":
         from pathlib import Path
         from suit_generator import cmd_encrypt
